@@ -275,7 +275,7 @@ pub fn w_deref(x: &XI) -> bool { let d: &FTY = core::ops::Deref::deref(x); core:
 pub fn w_deref_mut(x: XI, v: u8) -> bool {
     let mut x = x;
     let p1 = { let m: &mut FTY = core::ops::DerefMut::deref_mut(&mut x); poke(m, v); m as *const FTY };
-    core::ptr::eq(p1, &x.FA) && peek(&x.FA) == v
+    core::ptr::eq(p1, &x.FA) && peek(&x.FA) == EXPECT_PEEK
 }
 #[cfg(kani)]
 pub mod proofs {
@@ -294,7 +294,7 @@ pub fn replay(h: &str, b: &[u8]) -> (bool, String) {
         _ => (true, String::new()),
     }
 }
-'''.replace("XI", XI).replace("FTY", fty).replace("FA", fa).replace("CTOR_ANY", "{ let v = <%s as MkF>::mkf(kani::any()); %s }" % (fty, ctor)).replace("CTOR", "{ %s }" % ctor)
+'''.replace("EXPECT_PEEK", "TABLE[(v % 4) as usize]" if fty.startswith("&") else "v").replace("XI", XI).replace("FTY", fty).replace("FA", fa).replace("CTOR_ANY", "{ let v = <%s as MkF>::mkf(kani::any()); %s }" % (fty, ctor)).replace("CTOR", "{ %s }" % ctor)
     return Prog(name, text, ["deref", "deref_mut"], {"describe": "%s struct X%s(%s)%s" % (kind, g, decl_ty, w)})
 
 
@@ -305,6 +305,10 @@ impl MkF for (u8, u8) { fn mkf(b: u8) -> Self { (b, b ^ 0x5a) } }
 impl MkF for [u8; 2] { fn mkf(b: u8) -> Self { [b, 1] } }
 impl MkF for W<u8> { fn mkf(b: u8) -> Self { W(b) } }
 impl MkF for Option<u8> { fn mkf(b: u8) -> Self { Some(b) } }
+pub static TABLE: [u8; 4] = [10, 20, 30, 40];
+impl MkF for &'static u8 { fn mkf(b: u8) -> Self { &TABLE[(b % 4) as usize] } }
+impl MkF for (&'static u8, u8) { fn mkf(b: u8) -> Self { (&TABLE[(b % 4) as usize], b) } }
+impl Poke for &'static u8 { fn poke_(&mut self, v: u8) { *self = &TABLE[(v % 4) as usize] } fn peek_(&self) -> u8 { **self } }
 pub trait Poke { fn poke_(&mut self, v: u8); fn peek_(&self) -> u8; }
 impl Poke for u8 { fn poke_(&mut self, v: u8) { *self = v } fn peek_(&self) -> u8 { *self } }
 impl Poke for (u8, u8) { fn poke_(&mut self, v: u8) { self.1 = v } fn peek_(&self) -> u8 { self.1 } }
